@@ -60,7 +60,9 @@ Example C04_guard_inhabited :
   in_proved_slice (w_inside_slice_u, w_inside_slice_k) = true
   /\ in_proved_slice (w_inside_slice_filter_none_u, w_inside_slice_filter_none_k) = true
   /\ theorem_instance (w_inside_slice_u, w_inside_slice_k) = true
-  /\ theorem_instance (w_inside_slice_filter_none_u, w_inside_slice_filter_none_k) = true.
+  /\ theorem_instance (w_inside_slice_filter_none_u, w_inside_slice_filter_none_k) = true
+  /\ model_roundtrip (w_wrapper_under_best_match_u, w_wrapper_under_best_match_k) = true
+  /\ roundtrip_ok (w_wrapper_under_best_match_u, w_wrapper_under_best_match_k) = true.
 Proof. exact guard_inhabited. Qed.
 Print Assumptions C04_guard_inhabited.
 
@@ -101,18 +103,9 @@ Theorem C04_compound_shadowed_refuted :
 Proof. exact compound_shadowed_refuted. Qed.
 Print Assumptions C04_compound_shadowed_refuted.
 
-(* 5. a class with a wrapper field can never be bound through bind_best_dataclass *)
-Theorem C04_wrapper_under_best_match_refuted :
-  is_typed (w_wrapper_under_best_match_u, w_wrapper_under_best_match_k) = true
-  /\ clauses_failing (w_wrapper_under_best_match_u, w_wrapper_under_best_match_k) = [3]
-  /\ has_wrapper_object w_wrapper_under_best_match_u (dc_value w_wrapper_under_best_match_k) = true
-  /\ gres_eqb value_eqb
-       (match model_encode w_wrapper_under_best_match_u w_wrapper_under_best_match_k with
-        | Ok j => model_decode w_wrapper_under_best_match_u w_wrapper_under_best_match_k j
-        | Err e => Err e
-        end) (Err EParser) = true.
-Proof. exact wrapper_under_best_match_refuted. Qed.
-Print Assumptions C04_wrapper_under_best_match_refuted.
+(* 5. (repaired in /repo, 5e5f372: local_names_match now compares with the wrapper key) a class with a
+      wrapper field could never be bound through bind_best_dataclass; the lemma is gone, the witness
+      round-trips (C04_guard_inhabited) *)
 
 (* 6. no type marker: the class is guessed from keys and values, a sibling with stricter types wins *)
 Theorem C04_best_match_guess_refuted :
